@@ -7,6 +7,7 @@ one() {
   id=$1; wt=/tmp/wt_reg_$id
   git -C /repo worktree add --detach $wt HEAD -q 2>/dev/null
   for d in seeded/${id}_*; do
+    grep -q "\"retired\"" $d/meta.json && continue
     lib/try_mutant_wt.sh $id /verif/$d/patch.diff $wt | head -1
   done
   git -C /repo worktree remove --force $wt
